@@ -30,9 +30,10 @@ def replay_python(rec):
     prog, power, timers = rec["prog"], rec["power"], rec["timers"]
     emu = PCE500Emulator(trace_enabled=False, perfetto_trace=False, enable_new_tracing=False, enable_display_trace=False, save_lcd_on_exit=False)
     emu.memory.load_rom(bytes(0x3FFFA) + bytes((0x00, 0x90, 0x0B)) + bytes(3))
-    for i, b in enumerate(PROGRAMS[prog]):
+    program = PROGRAMS.get(prog, [0x00])
+    for i, b in enumerate(program):
         emu.memory.write_byte(PC0 + i, g("imm") if b is None else b)
-    for i in range(len(PROGRAMS[prog]), 12):
+    for i in range(len(program), 12):
         emu.memory.write_byte(PC0 + i, 0)
     ext = emu.memory.external_memory
     for off, val in ((0xEC, 0), (0xFB, g("imr")), (0xFC, g("isr"))):
@@ -53,7 +54,7 @@ def replay_python(rec):
             setattr(sch, nm, g(nm, 1))
         sch.enabled = True
     n0, tot0 = emu.instruction_count, int(emu.irq_counts.get("total", 0))
-    ok = emu.step()
+    ok = emu.press_key("KEY_ON") if prog == "press_on" else emu.step()
     O = {"ok": bv(1 if ok else 0, 32), "pc": bv(regs.get(RegisterName.PC), 20), "s": bv(regs.get(RegisterName.S), 20), "f": bv(regs.get(RegisterName.F), 8),
          "imr": bv(emu.memory.read_byte(IM + 0xFB), 8), "isr": bv(emu.memory.read_byte(IM + 0xFC), 8), "pend": bv(bool(emu._irq_pending), 1), "inint": bv(bool(emu._in_interrupt), 1),
          "halted": bv(bool(emu.cpu.state.halted), 1), "off": bv(0, 1), "icount": bv(emu.instruction_count - n0, 32), "total": bv(int(emu.irq_counts.get("total", 0)) - tot0, 32),
